@@ -98,16 +98,32 @@ def impl_case(case):
 
 
 def analyse_case(case):
+    try:
+        return _analyse_case(case)
+    except BaseException as e:  # noqa -- a bug of the harness itself: reported as internal error
+        import traceback
+        return {"status": "harness-error", "error": traceback.format_exc()[-600:], "shacl_error": None, "oracle": [],
+                "rows": [], "label_rows": [], "lines": [], "shacl_shapes": None, "rows_confirmed": None,
+                "shexc": None, "shacl": None, "canon_error": None, "ood_reason": None, "unreadable": False}
+
+
+def _analyse_case(case):
     """impl + parsing + oracle + model rows (runs in a worker)"""
     r = impl_case(case)
     out = {"status": r["status"], "error": r.get("error"), "shacl_error": r["shacl_error"], "oracle": [],
            "rows": [], "label_rows": [], "lines": [], "shacl_shapes": None, "rows_confirmed": None,
-           "shexc": r["shexc"], "shacl": r["shacl"], "canon_error": None}
+           "shexc": r["shexc"], "shacl": r["shacl"], "canon_error": None, "ood_reason": None,
+           "unreadable": False}
     if r["status"] != "ok":
         return out
     try:
         doc = canon.parse_shexc(r["shexc"])
         sdoc = canon.parse_shacl(r["shacl"]) if r["shacl"] is not None else None
+    except canon.CanonError as e:
+        # text outside the ShExC subset / not a SHACL document the property can be read from
+        out["oracle"] = [{"kind": "unreadable-output", "shape": None, "tuple": [str(e)[:300]], "rc": None}]
+        out["unreadable"] = True
+        return out
     except BaseException as e:  # noqa
         out["canon_error"] = "%s: %s" % (type(e).__name__, str(e)[:300])
         return out
@@ -130,7 +146,27 @@ def analyse_case(case):
         out["rows_confirmed"] = (real == [x[:4] for x in out["rows"]])
     if sdoc is not None:
         out["oracle"] = oracle(doc, sdoc, case.get("classes"))
+    else:
+        # no SHACL document at all: acceptable only for what SHACL serialisation documents as
+        # unsupported (predicates / class values that are not http(s) IRIs, e.g. blank-node classes)
+        out["ood_reason"] = out_of_domain_reason(doc)
+        if out["ood_reason"] is None:
+            out["oracle"] = [{"kind": "no-shacl-document", "shape": None, "tuple": [r["shacl_error"]], "rc": None}]
     return out
+
+
+def _http(u):
+    return u.startswith("http://") or u.startswith("https://")
+
+
+def out_of_domain_reason(doc):
+    for s in doc["shapes"]:
+        for c in s["constraints"]:
+            if not _http(c["pred"]):
+                return "predicate %s" % c["pred"]
+            if c["restr"][0] == "value" and not _http(c["restr"][1]):
+                return "class value %s" % c["restr"][1]
+    return None
 
 
 def row_of_constraint(c):
@@ -452,10 +488,16 @@ def run(tier, seed, replay=None):
     samples = []
     for ci, (case, r) in enumerate(zip(cases, results)):
         dist[r["status"]] += 1
+        if r["status"] == "harness-error":
+            run.internal_errors.append("harness failed on case %s: %s" % (case["tag"], r["error"]))
         if r["status"] != "ok":
             continue
         if r["canon_error"]:
             run.internal_errors.append("canonicaliser failed on case %s: %s" % (case["tag"], r["canon_error"]))
+            continue
+        if r["unreadable"]:
+            for f in r["oracle"]:
+                spec_fail.append((ci, f))
             continue
         if r["rows_confirmed"] is False:
             rows_unconfirmed += 1
@@ -475,7 +517,8 @@ def run(tier, seed, replay=None):
         if n and len({l["ctok"] for l in lines}) > 1:
             nontrivial += 1
         if r["shacl_error"]:
-            shacl_errors[r["shacl_error"].split(":")[0]] += 1
+            shacl_errors[r["shacl_error"].split(":")[0] + (" (out of domain: non-http(s) predicate or class value)"
+                                                           if r["ood_reason"] else " (in domain)")] += 1
         # (i) oracle
         case_fail = False
         for f in r["oracle"]:
@@ -561,6 +604,9 @@ def run(tier, seed, replay=None):
             want_sh = "ValueError" if m["shacl_status"] == "ValueError" else m["arcs"]
             if i["shacl"] != want_sh:
                 grid_fail.append((k, "shacl", i["shacl"], want_sh))
+            elif want_sh != "ValueError" and i.get("targets") != ["http://example.org/A"]:
+                # Model.SerialShacl.shacl_shape: sh:targetClass = the shape's class_uri
+                grid_fail.append((k, "shacl targetClass", i.get("targets"), ["http://example.org/A"]))
         for g in grid_fail[:1]:
             corr_fail.append((-1, ("grid %s" % g[1], list(g[0]), g[2], g[3])))
 
